@@ -67,11 +67,11 @@ func impl(in hv.Val) hv.Val {
 	l := hv.AsList(in)
 	switch hv.AsInt(l[0]) {
 	case 1:
-		s, ok := bfe_tls.VerifC44Decrypt(hv.AsBytes(l[1]), hv.AsBytes(l[2]))
+		s, ok, buf := bfe_tls.VerifC44Decrypt(hv.AsBytes(l[1]), hv.AsBytes(l[2]))
 		if !ok {
-			return hv.L{hv.I(0)}
+			return hv.L{hv.I(0), hv.B(buf)}
 		}
-		return append(hv.L{hv.I(1)}, stVal(s).(hv.L)...)
+		return append(append(hv.L{hv.I(1)}, stVal(s).(hv.L)...), hv.B(buf))
 	case 2:
 		return hv.B(bfe_tls.VerifC44Encrypt(hv.AsBytes(l[1]), hv.AsBytes(l[2]), stOf(l[3])))
 	case 3:
@@ -103,7 +103,13 @@ func impl(in hv.Val) hv.Val {
 var table [][2]int
 var consts []int
 
-func setup(string) { table = bfe_tls.VerifC44SuiteTable(); consts = bfe_tls.VerifC44Consts() }
+var nFlip int
+
+func setup(tier string) {
+	table = bfe_tls.VerifC44SuiteTable()
+	consts = bfe_tls.VerifC44Consts()
+	nFlip = nFlips(tier)
+}
 
 var versions = []uint16{0x0300, 0x0301, 0x0302, 0x0303}
 
@@ -182,7 +188,68 @@ func tamperTicket(r *hv.Rng, t []byte, idx int, tier string) ([]byte, string) {
 	}
 }
 
+// ---- single-bit flips of issued tickets: quick = 384 random (byte, bit) positions, thorough = every bit of
+// three tickets (0, 1, 2 client certificates) ----
+var flipKey = []byte("0123456789abcdefFEDCBA9876543210")
+var flipIV = []byte("ivivivivIVIVIVIV")
+
+func flipState(k int) st {
+	s := st{Vers: 0x0303, Suite: 0xc02f, Master: make([]byte, 48), Certificates: [][]byte{}}
+	for j := range s.Master {
+		s.Master[j] = byte(j*5 + k)
+	}
+	for c := 0; c < k; c++ {
+		s.Certificates = append(s.Certificates, []byte{byte(c), 1, 2, 3, 4, 5, 6})
+	}
+	return s
+}
+
+func nFlips(tier string) int {
+	if tier == "thorough" {
+		n := 0
+		for k := 0; k < 3; k++ {
+			n += 8 * len(bfe_tls.VerifC44Encrypt(flipKey, flipIV, flipState(k)))
+		}
+		return n
+	}
+	return 384
+}
+
+func genFlip(r *hv.Rng, i int, tier string) (string, hv.Val) {
+	k, bit := i%3, 0
+	if tier == "thorough" {
+		k = 0
+		for ; k < 3; k++ {
+			n := 8 * len(bfe_tls.VerifC44Encrypt(flipKey, flipIV, flipState(k)))
+			if i < n {
+				break
+			}
+			i -= n
+		}
+		bit = i
+	}
+	s := flipState(k)
+	ticket := bfe_tls.VerifC44Encrypt(flipKey, flipIV, s)
+	if tier != "thorough" {
+		bit = r.Intn(8 * len(ticket))
+	}
+	t := append([]byte(nil), ticket...)
+	t[bit/8] ^= 1 << uint(bit%8)
+	class := "bit-ct"
+	if bit/8 < 16 {
+		class = "bit-iv"
+	} else if bit/8 >= len(t)-32 {
+		class = "bit-tag"
+	}
+	col, ks := columns(flipKey, t)
+	return class, hv.L{hv.I(1), hv.B(flipKey), hv.B(t), hv.B(col), hv.B(ks), hv.B(flipKey), hv.B(ticket), stVal(s)}
+}
+
 func gen(r *hv.Rng, i int, tier string) (string, hv.Val) {
+	if i < nFlip {
+		return genFlip(r, i, tier)
+	}
+	i -= nFlip
 	key := r.Bytes(32)
 	iv := r.Bytes(16)
 	s := genState(r)
@@ -382,5 +449,5 @@ func gen(r *hv.Rng, i int, tier string) (string, hv.Val) {
 }
 
 func main() {
-	hv.Main(&hv.Spec{Prop: "C44", Gen: gen, Impl: impl, Setup: setup, NQuick: 10000, NThorough: 500000})
+	hv.Main(&hv.Spec{Prop: "C44", Gen: gen, Impl: impl, Setup: setup, NQuick: 8000, NThorough: 500000})
 }
